@@ -77,6 +77,10 @@ func (p *memoryState[T]) AtomicIncr(key string, MaxAllowed int64) (bool, error) 
 }
 
 func (p *memoryState[T]) AtomicDecr(key string) error {
+	return p.AtomicDecrBy(key, 1)
+}
+
+func (p *memoryState[T]) AtomicDecrBy(key string, decrBy int64) error {
 	p.mutex.Lock()
 	defer p.mutex.Unlock()
 
@@ -91,7 +95,7 @@ func (p *memoryState[T]) AtomicDecr(key string) error {
 		return fmt.Errorf("value for key %s is not an int64", key)
 	}
 
-	currentCounter--
+	currentCounter -= decrBy
 
 	return p.setInt64(counterKey, currentCounter)
 }
